@@ -72,6 +72,7 @@ def run(model, res, tier):
     res.rule('R4', 'off(name, cb) keeps exactly listeners whose fn is neither cb nor a wrapper of cb, in order; off(name) drops the name')
     res.rule('R5', 'every read/write of listener storage is keyed by the name argument')
     res.rule('R6', 'no subclass in the package overrides on/once/emit/off')
+    res.rule('R7', 'no emitter method resizes a list inside a loop that iterates over that same list (entries would be skipped)')
     res.assumptions += ['callbacks are ordinary callables compared with ==', 'the per-name container is a list']
     res.trusted += ['CPython ast', 'list/slice copy semantics']
     cands = find_emitter(model)
@@ -85,6 +86,7 @@ def run(model, res, tier):
         _r3(model, res, m, c, methods, store)
         _r4(model, res, m, c, methods, store)
         _r5(model, res, m, c, methods, store)
+        _r7(model, res, m, c, methods)
         for sm, sc in model.subclasses_of(m, c):
             for n in sc.body:
                 if isinstance(n, ast.FunctionDef) and n.name in API:
@@ -106,6 +108,7 @@ def emitter_rules(model, res):
         _r3(model, res, m, c, methods, store)
         _r4(model, res, m, c, methods, store)
         _r5(model, res, m, c, methods, store)
+        _r7(model, res, m, c, methods)
 
 
 # ---------------------------------------------------------------------------------------------------
@@ -147,6 +150,15 @@ def _r1(model, res, m, c, methods, store):
         it = sa.resolve_local(emit, lp.iter)
         # (a) snapshot, order preserving
         verdict, why = _snapshot_verdict(it, s, store, name_p, emit)
+        if verdict is None and isinstance(it, ast.Name) and len(sa.assignments_to(emit, it.id)) > 1:
+            # a name bound more than once (e.g. copied only under a condition): every definition that reaches the loop must be a snapshot
+            verdicts = [_snapshot_verdict(v_, s, store, name_p, None) if v_ is not None else (None, 'binding not followed')
+                        for v_ in _reaching_values(emit, lp, it.id)]
+            if verdicts and any(v_[0] is False for v_ in verdicts):
+                verdict, why = [v_ for v_ in verdicts if v_[0] is False][0]
+                why += ' (on the path where %s is not rebound to a copy)' % it.id
+            elif verdicts and all(v_[0] is True for v_ in verdicts):
+                verdict, why = True, 'every definition of %s that reaches the loop is a copy' % it.id
         res.ob('R1', site, 'iterable %s' % src(lp.iter), verdict is not False, why)
         if verdict is False:
             res.violation('R1', '%s:%s.emit:delivery-iterable' % (m.name, c.name), m.where(lp), why,
@@ -187,6 +199,52 @@ def _r1(model, res, m, c, methods, store):
         if not (ok_ctx and ok_fn):
             res.violation('R1', '%s:%s.emit:ctx-forwarding' % (m.name, c.name), m.where(call),
                           'listener is not called as record.fn(*args, **record.ctx)', case=src(call), func=c.name + '.emit')
+
+
+def _reaching_values(func, loop, name):
+    """The value expressions ``name`` holds when ``loop`` is reached, one per acyclic path (earlier values of the name substituted
+    into later ones: x = self._e[n]; x = x.copy()  ->  self._e[n].copy()); None for a binding that is not a plain assignment."""
+    import copy as _copy
+    from ..paths import function_paths, TooManyPaths
+    try:
+        paths = function_paths(func)
+    except TooManyPaths:
+        return [None]
+    out, seen = [], set()
+
+    class Sub(ast.NodeTransformer):
+        def __init__(self, val):
+            self.val = val
+
+        def visit_Name(self, node):
+            if node.id == name and isinstance(node.ctx, ast.Load) and self.val is not None:
+                return _copy.deepcopy(self.val)
+            return node
+    for p in paths:
+        cur, bound, reached = None, False, False
+        for it in p.items:
+            if it[0] == 'loop' and it[1] is loop:
+                reached = True
+                break
+            if it[0] == 'stmt':
+                st = it[1]
+                if isinstance(st, ast.Assign) and len(st.targets) == 1 and isinstance(st.targets[0], ast.Name) and st.targets[0].id == name:
+                    cur = Sub(cur).visit(_copy.deepcopy(st.value)) if bound else _copy.deepcopy(st.value)
+                    ast.fix_missing_locations(cur)
+                    bound = True
+                elif name in guards_assigned(st):
+                    cur, bound = None, True
+        if reached:
+            key = src(cur) if cur is not None else None
+            if key not in seen:
+                seen.add(key)
+                out.append(cur)
+    return out
+
+
+def guards_assigned(node):
+    from .. import guards
+    return guards.assigned_names(node)
 
 
 def _via_local(func, node, tnames):
@@ -241,11 +299,15 @@ def _ctx_or_default(node, ctx_p, func):
     return False
 
 
+def _rl(func, node):
+    return sa.resolve_local(func, node) if func is not None else node
+
+
 def _snapshot_verdict(it, s, store, name_p, func):
     """True = copy, False = refuted, None = unrecognised (undecided)."""
     if isinstance(it, ast.Subscript) and isinstance(it.slice, ast.Slice):
         sl = it.slice
-        base = sa.resolve_local(func, it.value)
+        base = _rl(func, it.value)
         if sl.lower is None and sl.upper is None and (sl.step is None or (isinstance(sl.step, ast.Constant) and sl.step.value in (None, 1))):
             if is_storage_for_name(base, s, store, name_p):
                 return True, 'full slice copy of the per-name list'
@@ -256,14 +318,14 @@ def _snapshot_verdict(it, s, store, name_p, func):
     if isinstance(it, ast.Call):
         cn = sa.call_name(it)
         if cn in COPY_CALLS and it.args:
-            base = sa.resolve_local(func, it.args[0])
+            base = _rl(func, it.args[0])
             if is_storage_for_name(base, s, store, name_p):
                 return True, '%s() copy of the per-name list' % cn
             return _snapshot_verdict(base, s, store, name_p, func) if isinstance(base, (ast.Call, ast.Subscript)) else (None, 'copy of %s' % src(base))
-        if cn in ('copy.copy',) and it.args and is_storage_for_name(sa.resolve_local(func, it.args[0]), s, store, name_p):
+        if cn in ('copy.copy',) and it.args and is_storage_for_name(_rl(func, it.args[0]), s, store, name_p):
             return True, 'copy.copy of the per-name list'
         if isinstance(it.func, ast.Attribute) and it.func.attr == 'copy' and \
-                is_storage_for_name(sa.resolve_local(func, it.func.value), s, store, name_p):
+                is_storage_for_name(_rl(func, it.func.value), s, store, name_p):
             return True, '.copy() of the per-name list'
         if cn in ORDER_BREAKERS:
             return False, 'delivery order is not subscription order: iterates %s' % src(it)
@@ -726,3 +788,96 @@ def _r5(model, res, m, c, methods, store):
     if not ok:
         res.violation('R5', '%s:%s.__init__:storage-not-per-instance' % (m.name, c.name), m.where(c),
                       'listener storage %s is not created in __init__' % store, func=c.name + '.__init__')
+
+
+# ---------------------------------------------------------------------------------------------------
+# R7: resizing a list while iterating over it
+
+RESIZERS = ('remove', 'pop', 'insert', 'append', 'extend', 'clear', 'sort', 'reverse')
+
+
+def resize_during_iteration(func):
+    """[(loop, mutating statement, text of the list)] : a for loop over X (or enumerate(X) / iter(X) / zip(.., X, ..)) whose body
+    deletes from / inserts into X itself (same expression, or a local bound once to it) and then goes on iterating."""
+    out = []
+
+    def base_of(e):
+        if isinstance(e, ast.Call) and sa.call_name(e) in ('enumerate', 'iter', 'zip') and e.args:
+            res_ = []
+            for a in (e.args if sa.call_name(e) == 'zip' else e.args[:1]):
+                res_ += base_of(a)
+            return res_
+        if isinstance(e, (ast.Name, ast.Attribute, ast.Subscript)):
+            return [e]
+        return []
+
+    def same(a, b):
+        ra = sa.resolve_local(func, a) if isinstance(a, ast.Name) else a
+        rb = sa.resolve_local(func, b) if isinstance(b, ast.Name) else b
+        return src(a) == src(b) or src(ra) == src(rb)
+
+    def leaves_loop_after(block, idx):
+        return idx + 1 < len(block) and isinstance(block[idx + 1], (ast.Break, ast.Return, ast.Raise))
+
+    def scan(block, loop, bases):
+        for i, st in enumerate(block):
+            hit = None
+            if isinstance(st, ast.Delete):
+                for t in st.targets:
+                    if isinstance(t, ast.Subscript) and any(same(t.value, b) for b in bases):
+                        hit = t.value
+            elif isinstance(st, ast.Expr) and isinstance(st.value, ast.Call) and isinstance(st.value.func, ast.Attribute) \
+                    and st.value.func.attr in RESIZERS and any(same(st.value.func.value, b) for b in bases):
+                hit = st.value.func.value
+            elif isinstance(st, (ast.Assign, ast.AugAssign)):
+                tg = st.targets if isinstance(st, ast.Assign) else [st.target]
+                for t in tg:
+                    if isinstance(t, ast.Subscript) and isinstance(t.slice, ast.Slice) and any(same(t.value, b) for b in bases):
+                        hit = t.value
+                    if isinstance(st, ast.AugAssign) and isinstance(t, (ast.Name, ast.Attribute)) and any(same(t, b) for b in bases):
+                        hit = t
+            if hit is not None and not leaves_loop_after(block, i):
+                out.append((loop, st, src(hit)))
+            for fld in ('body', 'orelse', 'finalbody'):
+                sub = getattr(st, fld, None)
+                if isinstance(sub, list) and not isinstance(st, (ast.FunctionDef, ast.ClassDef)):
+                    scan(sub, loop, bases)
+            for h in getattr(st, 'handlers', []) or []:
+                scan(h.body, loop, bases)
+    for n in walk_no_defs(func):
+        if isinstance(n, ast.For):
+            bases = base_of(n.iter)
+            if bases:
+                scan(n.body, n, bases)
+    return out
+
+
+_R7_WITNESS = """
+def bad(self, name, cb):
+    events = self._e[name]
+    for index, event in enumerate(events):
+        if event.fn == cb:
+            del events[index]
+
+def good(self, name, cb):
+    events = self._e[name]
+    for index, event in enumerate(events):
+        if event.fn == cb:
+            del events[index]
+            break
+"""
+
+
+def _r7(model, res, m, c, methods):
+    wit = ast.parse(_R7_WITNESS)
+    if not resize_during_iteration(wit.body[0]) or resize_during_iteration(wit.body[1]):
+        raise AnalysisError('C20.R7 self-check failed')
+    for name, f in sorted(methods.items()):
+        hits = resize_during_iteration(f)
+        res.ob('R7', '%s:%s.%s' % (m.name, c.name, name), 'no list is resized while iterated', not hits,
+               '; '.join('%s in loop over %s' % (src(st)[:40], what) for lp, st, what in hits))
+        for lp, st, what in hits:
+            res.violation('R7', '%s:%s.%s:resize-during-iteration' % (m.name, c.name, name), m.where(st),
+                          '%s changes the length of %s inside the loop that iterates over it: the iteration then skips the entry that slides '
+                          'into the freed position (two adjacent listeners of one callback - on() then once() - are not both removed) or visits '
+                          'entries twice' % (src(st)[:60], what), func='%s.%s' % (c.name, name))
